@@ -19,6 +19,7 @@ func VH_c18_api_path() {
 	go s.Serve()
 
 	prefix := vPrefix4(10, 1, 0, 0, 16)
+	looped := false
 	nh, _ := bgp.NewPathAttributeNextHop(vAddr4(10, 0, 0, 9))
 	attrs := []bgp.PathAttributeInterface{
 		bgp.NewPathAttributeOrigin(vU8("origin") % 3),
@@ -29,8 +30,9 @@ func VH_c18_api_path() {
 	// well-known communities (NO_EXPORT, NO_ADVERTISE, LLGR_STALE, ...) legitimately restrict export
 	vAssume(attrs[3].(*bgp.PathAttributeCommunities).Value[0]>>16 != 0xffff)
 	if vBool("with_as_path") {
-		x := vU32("as")
-		vAssume(x != 0 && x != 65003 && x != 65000)
+		x := vU32("as") // the peer's own AS here makes the route unexportable to it (AS loop)
+		vAssume(x != 0 && x != 65000)
+		looped = x == 65003
 		attrs = append(attrs, bgp.NewPathAttributeAsPath([]bgp.AsPathParamInterface{bgp.NewAs4PathParam(bgp.BGP_ASPATH_ATTR_TYPE_SEQ, []uint32{x})}))
 	}
 	want := map[bgp.BGPAttrType][]byte{}
@@ -77,7 +79,7 @@ func VH_c18_api_path() {
 		}
 	}
 	drain()
-	vAssert(have, "a route added through the API is not advertised to an established peer")
+	vAssert(have == !looped, "a route added through the API is not advertised to an established peer (or is advertised although the peer's AS is in its AS_PATH)")
 	err = s.DeletePath(apiutil.DeletePathRequest{UUIDs: []uuidT{resps[0].UUID}})
 	vAssert(err == nil, "a route cannot be deleted by the identifier AddPath returned")
 	drain()
